@@ -105,6 +105,67 @@ Proof.
     + apply Nat.eqb_neq in E2. destruct (i - length s) as [|m] eqn:Em; [lia|]. destruct m; reflexivity.
 Qed.
 
+(* ---- dynamic attachment ---------------------------------------------------------------------- *)
+
+Lemma hub_run_app : forall pre s post,
+  hub_run s (pre ++ post) = hub_run s pre ++ hub_run (hub_after s pre) post.
+Proof.
+  induction pre as [|a pre IH]; intros s post; [reflexivity|].
+  destruct a as [e|src|i id]; cbn [app hub_run hub_after fold_left hub_step].
+  - apply IH.
+  - rewrite IH. reflexivity.
+  - apply IH.
+Qed.
+
+Lemma hub_run_length : forall acts s, length (hub_run s acts) = count_sends acts.
+Proof.
+  induction acts as [|a acts IH]; intros s; [reflexivity|].
+  destruct a; cbn [hub_run count_sends length]; rewrite ?IH; reflexivity.
+Qed.
+
+Lemma hub_after_attaches : forall es s, hub_after s (map HAttach es) = s ++ es.
+Proof.
+  induction es as [|e es IH]; intros s; cbn [map hub_after fold_left hub_step].
+  - rewrite app_nil_r. reflexivity.
+  - change (fold_left hub_step (map HAttach es) (hub_add s e)) with (hub_after (hub_add s e) (map HAttach es)).
+    rewrite IH. unfold hub_add. rewrite <- app_assoc. reflexivity.
+Qed.
+
+(* Whatever was attached, renamed or sent before: the send that follows the actions [pre] is repeated
+   to exactly the endpoints attached SO FAR (the population hub_after s pre) other than the sender,
+   each exactly once, through its port device exactly when it has one. *)
+Theorem hub_repeats_dynamic : forall (s : hub_state) (pre : list hub_act) (src : Z) (post : list hub_act),
+  let cur := hub_after s pre in
+  nth_error (hub_run s (pre ++ HSend src :: post)) (count_sends pre) = Some (hub_put cur src) /\
+  NoDup (map fst (hub_put cur src)) /\
+  (forall i v, In (i, v) (hub_put cur src) <-> exists e, nth_error cur i = Some e /\ ep_id e <> src /\ v = ep_port e) /\
+  (forall i e, nth_error cur i = Some e -> ep_id e = src -> ~ In i (map fst (hub_put cur src))).
+Proof.
+  intros s pre src post cur. split.
+  - rewrite hub_run_app. rewrite nth_error_app2 by (rewrite hub_run_length; lia).
+    rewrite hub_run_length, Nat.sub_diag. reflexivity.
+  - apply hub_repeats.
+Qed.
+
+(* in particular with add_endpoint only: constructor population s, then endpoints es attached one by
+   one (with any sends in between, which change nothing): the population is s ++ es *)
+Theorem hub_attached_so_far : forall (s : hub_state) (es : list hub_ep) (src : Z) (i : nat) (v : bool),
+  In (i, v) (hub_put (hub_after s (map HAttach es)) src) <->
+  exists e, nth_error (s ++ es) i = Some e /\ ep_id e <> src /\ v = ep_port e.
+Proof.
+  intros s es src i v. rewrite hub_after_attaches. apply hub_repeats.
+Qed.
+
+Lemma hub_after_send : forall s src, hub_after s [HSend src] = s.
+Proof. reflexivity. Qed.
+
+Example hub_dynamic_ex :
+  hub_run [ {| ep_id := 1; ep_port := false |} ]
+          [HSend 1%Z; HAttach {| ep_id := 2; ep_port := true |}; HSend 1%Z; HAttach {| ep_id := 3; ep_port := false |};
+           HSend 1%Z; HSend 2%Z; HRename 0 3%Z; HSend 3%Z]
+  = [ []; [(1, true)]; [(1, true); (2, false)]; [(0, false); (2, false)]; [(1, true)] ].
+Proof. reflexivity. Qed.
+
 (* the code as found cannot build a hub without a ports list *)
 Theorem hub_refuted_before_fix : exists eids, eids <> [] /\ hub_make false eids [] = inr HIndexError.
 Proof. exists [1%Z; 2%Z]. split; [discriminate|reflexivity]. Qed.
